@@ -53,7 +53,7 @@ LEVEL = "exploration"
 
 # module -> deviation bound of the test-case enumeration
 MODULES_QUICK = {"numeric": 1, "containers": 1, "shapes": 1, "raising": 1}
-MODULES_THOROUGH = {"numeric": 2, "containers": 2, "shapes": 2, "strings": 2, "raising": 2}
+MODULES_THOROUGH = {"numeric": 1, "containers": 2, "shapes": 2, "strings": 1, "raising": 2}
 SCRIPT = [("insert",), ("insert",)]
 
 # generator configurations of the real leg: name -> (kind, strategy, order, minimise)
